@@ -213,8 +213,14 @@ func CmpsOnEdge(e Edge) []Cmp {
 // (false) and exactly one incoming edge can carry true (false), that operand has the value and every
 // fact on the way to that predecessor holds too.
 func expandPhiFact(f Fact, depth int) []Fact {
+	if depth > 4 {
+		return nil
+	}
+	if out := expandNilPhiFact(f, depth); out != nil {
+		return out
+	}
 	phi, ok := f.V.(*ssa.Phi)
-	if !ok || depth > 4 {
+	if !ok {
 		return nil
 	}
 	cand := -1
@@ -240,6 +246,65 @@ func expandPhiFact(f Fact, depth int) []Fact {
 		out = append(out, expandPhiFact(nf, depth+1)...)
 	}
 	out = append(out, FactsOnEdge(Edge{pred, phi.Block()})...)
+	return out
+}
+
+// expandNilPhiFact: f says `x == nil` where x is a phi (a result variable assigned on several paths, e.g. the error
+// of an inlined validation helper). Incoming values that are freshly boxed (MakeInterface) cannot be nil; if exactly
+// one incoming edge can carry nil, control came along it and every fact on the way to it holds.
+func expandNilPhiFact(f Fact, depth int) []Fact {
+	b, ok := f.V.(*ssa.BinOp)
+	if !ok || (b.Op != token.EQL && b.Op != token.NEQ) {
+		return nil
+	}
+	var x ssa.Value
+	switch {
+	case IsNilConst(b.Y):
+		x = b.X
+	case IsNilConst(b.X):
+		x = b.Y
+	default:
+		return nil
+	}
+	if (b.Op == token.EQL) != f.True {
+		return nil // x != nil: nothing to select
+	}
+	phi, ok := x.(*ssa.Phi)
+	if !ok {
+		return nil
+	}
+	return nilPhiFacts(phi, f.If, depth)
+}
+
+func nilPhiFacts(phi *ssa.Phi, ifi *ssa.If, depth int) []Fact {
+	if depth > 4 {
+		return nil
+	}
+	cand := -1
+	for i, e := range phi.Edges {
+		if _, boxed := e.(*ssa.MakeInterface); boxed {
+			continue
+		}
+		if cand >= 0 {
+			return nil
+		}
+		cand = i
+	}
+	if cand < 0 {
+		return nil
+	}
+	pred := phi.Block().Preds[cand]
+	out := FactsOnEdge(Edge{pred, phi.Block()})
+	switch e := phi.Edges[cand].(type) {
+	case *ssa.Const:
+		if !e.IsNil() {
+			return nil
+		}
+	case *ssa.Phi:
+		out = append(out, nilPhiFacts(e, ifi, depth+1)...)
+	default:
+		// a value that may or may not be nil arrived along the only possible edge: the path facts still hold
+	}
 	return out
 }
 
